@@ -3,6 +3,7 @@ package mon
 
 import (
 	_ "verif/mon/c01"
+	_ "verif/mon/c02"
 	_ "verif/mon/c10"
 	_ "verif/mon/c11"
 	_ "verif/mon/c12"
